@@ -123,6 +123,32 @@ theorem C18_F2_capacity_zero_ub :
     (run p {} [.store (1 : Nat)]).ub = true ∧ (run p {} [.setCapacity 3, .setCapacity 0, .store (1 : Nat)]).ub = true := by
   decide
 
+/-- **F1 and F2 are the only defect classes of the pinned ring.** Without the index reset and without the
+    capacity-0 guard (`BacktraceStorage` as of the pinned tree) the refinement still holds on every history in
+    which no `store` happens with capacity 0 and no `process` happens on a wrapped ring (more than `cap` events
+    pending). (The full statement — every history — is `C18_ring_refines`, for the repaired ring; for this ring
+    it is false by `C18_F1_index_not_reset` / `C18_F2_capacity_zero_ub`.) -/
+theorem C18_pinned_ring_partial (p : Params) (h3 : p.startsAtIndex = true) (h4 : p.clearsOnFlush = true)
+    (h5 : p.wrapSlack = 1) (ops : List (Op α))
+    (hF2 : p.guardsZeroCapacity = true ∨ storesAvoidCapZero {} ops = true)
+    (hF1 : p.resetsIndexOnFlush = true ∨ flushesUnwrapped {} ops = true) :
+    trace p {} ops = Spec.trace {} ops ∧ (run p {} ops).ub = false := by
+  have h := Rel.run_partial h3 h4 h5 ops (Rel.init (α := α)) hF2 hF1
+  exact ⟨h.1, h.2.ub⟩
+
+/-- non-vacuity: a history of the pinned ring with wraps, flushes of unwrapped rings and resizes -/
+example : let p := { Params.good with resetsIndexOnFlush := false, guardsZeroCapacity := false }
+    let h : List (Op Nat) := [.setCapacity 2, .store 1, .store 2, .process, .store 3, .process, .setCapacity 3,
+      .store 4, .store 5, .store 6, .store 7, .setCapacity 1, .store 8, .process, .process]
+    storesAvoidCapZero {} h = true ∧ flushesUnwrapped {} h = true ∧
+    trace p {} h = [[], [], [], [1, 2], [], [3], [], [], [], [], [], [], [], [8], []] := by decide
+
+/-- the F1 witness is excluded by `flushesUnwrapped` only, the F2 witness by `storesAvoidCapZero` only -/
+example : flushesUnwrapped {} ([.setCapacity 3, .store 1, .store 2, .store 3, .store 4, .process] : List (Op Nat)) = false ∧
+    storesAvoidCapZero {} ([.setCapacity 3, .store 1, .store 2, .store 3, .store 4, .process] : List (Op Nat)) = true ∧
+    storesAvoidCapZero {} ([.store 1] : List (Op Nat)) = false ∧ flushesUnwrapped {} ([.store 1] : List (Op Nat)) = true := by
+  decide
+
 /-- walking from slot 0 instead of `_index` replays a wrapped ring in the wrong order -/
 theorem C18_neg_walk_from_zero :
     let p := { Params.good with startsAtIndex := false }
